@@ -19,7 +19,7 @@ func profC06() spec.Profile {
 		MaxLeaves: 3, PAuto: 0.5, PTextArg: 0.45, PMovesArg: 0.25, PFormat: 0.2, PTyped: 0.3,
 		PEmptyBody: 0.05, AfterJump: 0.3, PElse: 0.5, MaxElif: 2, MaxCases: 4, PDefault: 0.5, PEmptyCase: 0.2,
 		PoryKeys: []string{"GAME", "LANG"}, PFallback: 0.85,
-		TextPool: []string{"Hello", "Bye now", "A b c", "Prize!", "x", "Hello there, how are you doing on this very fine day of spring?", `One\pTwo\nThree`},
+		TextPool: []string{"Hello", "Bye now", "A b c", "Prize!", "x", "Hello there, how are you doing on this very fine day of spring?", `One\pTwo\nThree`, "(", ")", ",", "moves"},
 	}
 }
 
@@ -319,6 +319,9 @@ func runC06(ctx *h.Ctx) int {
 			func() *spec.TextVal { return text("", "brailleabc") }, func() *spec.TextVal { return text("", "customabc") }, func() *spec.TextVal { return text("", "customabc$") },
 			func() *spec.TextVal { return text("", "asciiabc") }, func() *spec.TextVal { return text("custom", "") }, func() *spec.TextVal { return text("", "custom") },
 			func() *spec.TextVal { return text("braille", "a", "bc") }, func() *spec.TextVal { return text("", "abc ") }, func() *spec.TextVal { return text("", " abc") },
+			// texts that are exactly one delimiter or keyword (compared by literal instead of by token type they look like syntax)
+			func() *spec.TextVal { return text("", "(") }, func() *spec.TextVal { return text("", ")") }, func() *spec.TextVal { return text("", ",") },
+			func() *spec.TextVal { return text("", "format") }, func() *spec.TextVal { return text("ascii", "moves") }, func() *spec.TextVal { return text("", "}") },
 		}
 		ns := 1 + r.IntN(3)
 		for i := 0; i < ns; i++ {
@@ -393,9 +396,14 @@ func runC06(ctx *h.Ctx) int {
 		pick := k.R.IntN(len(lm.Texts) + len(lm.Moves))
 		if pick < len(lm.Texts) {
 			what = lm.Texts[pick].Label
-			clash = &spec.TextItem{ID: prog.NewID(), Name: what, Val: &spec.TextVal{ID: prog.NewID(), Parts: []string{"user text"}}}
 		} else {
 			what = lm.Moves[pick-len(lm.Texts)].Label
+		}
+		// (one time in three the user item is of the OTHER family: a movement named like a hoisted text label or
+		// a text named like a hoisted movement label is a clash just the same)
+		if (pick < len(lm.Texts)) != (k.R.IntN(3) == 0) {
+			clash = &spec.TextItem{ID: prog.NewID(), Name: what, Val: &spec.TextVal{ID: prog.NewID(), Parts: []string{"user text"}}}
+		} else {
 			clash = &spec.MovementItem{ID: prog.NewID(), Name: what, Steps: []*spec.ListElem{{ID: prog.NewID(), Name: "walk_up"}}}
 		}
 		at := k.R.IntN(len(prog.Items) + 1)
